@@ -253,7 +253,7 @@ func (s verifInts) Operation() (interface{}, error) {
 	return [2]int{len(s), sum}, nil
 }
 func (s verifInts) Slice(i, j int) Mapper { return s[i:j] }
-func (s verifInts) Len() int             { return len(s) }
+func (s verifInts) Len() int              { return len(s) }
 
 // VerifC19_Map: one result per chunk, the chunks partition the input.
 func VerifC19_Map() {
@@ -288,5 +288,49 @@ func VerifC19_Map() {
 	}
 	verifAssert(cnt == n && sum == total, "chunks-partition-the-input")
 	verifObserve("c19m", n, threads, chunk, len(res))
+	verifReach("end")
+}
+
+type verifFailInts struct {
+	xs   []int
+	fail int // the element with this value makes its chunk fail
+}
+
+func (s verifFailInts) Operation() (interface{}, error) {
+	sum := 0
+	for _, x := range s.xs {
+		if x == s.fail {
+			return nil, verifErr
+		}
+		sum += x
+	}
+	return [2]int{len(s.xs), sum}, nil
+}
+func (s verifFailInts) Slice(i, j int) Mapper { return verifFailInts{s.xs[i:j], s.fail} }
+func (s verifFailInts) Len() int              { return len(s.xs) }
+
+// VerifC19_MapFail: one chunk fails (which one is symbolic). Map reports an error, every
+// result it did return is a distinct chunk of the input, and nothing panics afterwards: the
+// goroutines Map leaves behind are run until each is blocked or done.
+func VerifC19_MapFail() {
+	n, threads, chunk := verifParam("n"), verifParam("threads"), verifParam("chunk")
+	set := verifFailInts{xs: make([]int, n)}
+	for i := range set.xs {
+		set.xs[i] = 1 << uint(i)
+	}
+	set.fail = 1 << uint(verifChoice("failing", n))
+	res, err := Map(set, threads, chunk)
+	verifAssert(err != nil, "failing-chunk-reported")
+	seen := 0
+	for _, r := range res {
+		a, ok := r.([2]int)
+		verifAssert(ok, "result-type")
+		if ok {
+			verifAssert(a[1]&seen == 0 && a[1]&set.fail == 0, "results-are-distinct-good-chunks")
+			seen |= a[1]
+		}
+	}
+	verifSettle() // a panic in a goroutine left behind is a crash of the program
+	verifObserve("c19mf", n, threads, chunk)
 	verifReach("end")
 }
